@@ -20,6 +20,7 @@ import (
 	"hash/fnv"
 	"os"
 	"path/filepath"
+	"runtime"
 	"runtime/debug"
 	"sort"
 	"strconv"
@@ -460,3 +461,24 @@ func WithDeadline(d time.Duration, f func()) bool {
 
 // Tier returns "quick" or "thorough".
 func Tier() string { return getenv().tier }
+
+// Stacks returns the stacks of all goroutines that contain the substring
+// (diagnostics for "did not return" failures).
+func Stacks(contains string) string {
+	buf := make([]byte, 4<<20)
+	buf = buf[:runtime.Stack(buf, true)]
+	var out []string
+	for _, g := range strings.Split(string(buf), "\n\n") {
+		if strings.Contains(g, contains) && !strings.Contains(g, "pbt.Stacks") {
+			lines := strings.Split(g, "\n")
+			if len(lines) > 24 {
+				lines = lines[:24]
+			}
+			out = append(out, strings.Join(lines, "\n"))
+		}
+	}
+	if len(out) > 8 {
+		out = out[:8]
+	}
+	return strings.Join(out, "\n\n")
+}
